@@ -5,6 +5,7 @@ mod heap;
 mod json;
 mod num;
 mod path;
+mod pos;
 mod prog;
 mod regalloc;
 
@@ -17,6 +18,7 @@ fn main() {
     let f: fn(&str) -> String = match model {
         "path" => path::line,
         "heap" => heap::line,
+        "pos" => pos::line,
         "prog" => prog::line,
         "regalloc" => regalloc::line,
         "json" => json::line,
